@@ -243,6 +243,24 @@ def _res_map(ctx, a, c):
     return ok(call_closure(ctx, a[1], [r.f[0]])) if r.variant == "Ok" else r
 
 
+@model("Result::unwrap_or_else", doc="core: Ok(x) => x, Err(e) => f(e)")
+def _result_unwrap_or_else(ctx, a, c):
+    r = a[0]
+    return r.f[0] if r.variant == "Ok" else call_closure(ctx, a[1], [r.f[0]])
+
+
+@model("Result::unwrap_or", doc="core")
+def _result_unwrap_or(ctx, a, c):
+    r = a[0]
+    return r.f[0] if r.variant == "Ok" else a[1]
+
+
+@model("Result::and_then", doc="core: Ok(x) => f(x), Err(e) => Err(e)")
+def _result_and_then(ctx, a, c):
+    r = a[0]
+    return call_closure(ctx, a[1], [r.f[0]]) if r.variant == "Ok" else r
+
+
 @model("Result::expect", doc="core: Err => panic(msg)")
 def _res_expect(ctx, a, c):
     r = need_res(a[0])
@@ -1473,6 +1491,20 @@ def _dq_retain(ctx, a, c):
     return UNIT
 
 
+@model("VecDeque::pop_back", doc="alloc")
+def _dq_pop_back(ctx, a, c):
+    d = dq_of(ctx, a[0])
+    return some(d.cells.pop().v) if d.cells else none()
+
+
+@model("VecDeque::front", "VecDeque::back", doc="alloc: reference to the first / last element")
+def _dq_front_back(ctx, a, c):
+    d = dq_of(ctx, a[0])
+    if not d.cells:
+        return none()
+    return some(Ref(d.cells[0] if c.split("::")[-1].startswith("front") else d.cells[-1]))
+
+
 @model("VecDeque::len", doc="alloc")
 def _dq_len(ctx, a, c):
     return z3.BitVecVal(len(dq_of(ctx, a[0]).cells), 64)
@@ -1486,6 +1518,31 @@ def _dq_is_empty(ctx, a, c):
 @model("VecDeque::new", "<VecDeque as Default>::default", doc="alloc")
 def _dq_new(ctx, a, c):
     return VecDequeV()
+
+
+@model("SocketAddr::ip", doc="std::net")
+def _sa_ip(ctx, a, c):
+    sa = deref(ctx, a[0])
+    return Enum("IpAddr", sa.variant, sa.idx, [sa.f[0].f[0]])
+
+
+@model("SocketAddr::port", doc="std::net")
+def _sa_port(ctx, a, c):
+    return deref(ctx, a[0]).f[0].f[1]
+
+
+@model("SocketAddr::new", doc="std::net")
+def _sa_new(ctx, a, c):
+    ip = a[0]
+    return Enum("SocketAddr", ip.variant, ip.idx, [Agg("addr", [ip.f[0], a[1]])])
+
+
+@model("Ipv6Addr::to_ipv4_mapped", doc="std::net: Some(v4) for ::ffff:a.b.c.d")
+def _to_v4_mapped(ctx, a, c):
+    ip = deref(ctx, a[0])
+    if ctx.branch(z3.Extract(127, 32, ip) == z3.BitVecVal(0xFFFF, 96), "v4-mapped"):
+        return some(ip)
+    return none()
 
 
 @model("SocketAddr::set_port", doc="std::net: replaces the port, keeps the address")
